@@ -8,11 +8,11 @@ PROP == IF "PROP" \in DOMAIN IOEnv THEN IOEnv.PROP ELSE "all"
 Chk(p) == PROP = "all" \/ PROP = p
 GS == {TLog[i].g : i \in {j \in 1..NL : "g" \in DOMAIN TLog[j]}}
 
-VARIABLES l, pend, ctxc   \* ctxc: cancelled context ids (100 = the context the Channel was built on)
-tvars == <<vars, l, pend, ctxc>>
+VARIABLES l, pend, ctxc, cdone   \* ctxc: context ids whose cancellation is announced (100 = the Channel's own parent); cdone: completed
+tvars == <<vars, l, pend, ctxc, cdone>>
 Idle == [st |-> "idle", line |-> 0, pre |-> FALSE]
 
-TVInit == Init /\ l = 1 /\ pend = [g \in GS |-> Idle] /\ ctxc = {} /\ TLCSet(1, 0)
+TVInit == Init /\ l = 1 /\ pend = [g \in GS |-> Idle] /\ ctxc = {} /\ cdone = {} /\ TLCSet(1, 0)
 
 Cur == TLog[l]
 IsEv(e) == l <= NL /\ Cur.ev = e
@@ -31,28 +31,34 @@ TReset ==
   /\ src' = <<>> /\ srcClosed' = FALSE /\ buf' = <<>> /\ rb' = 0
   /\ cancelled' = FALSE /\ once' = FALSE /\ closer' = "" /\ done' = FALSE
   /\ taken' = <<>> /\ commits' = <<>>
-  /\ pend' = [g \in GS |-> Idle] /\ ctxc' = {}
+  /\ pend' = [g \in GS |-> Idle] /\ ctxc' = {} /\ cdone' = {}
 
 TCall ==
   /\ IsEv("call") /\ Consume
   /\ pend[Cur.g].st = "idle"
-  /\ pend' = [pend EXCEPT ![Cur.g] = [st |-> "called", line |-> l, pre |-> ("ctx" \in DOMAIN Cur /\ Cur.ctx \in ctxc)]]
-  /\ UNCHANGED <<vars, ctxc>>
+  /\ pend' = [pend EXCEPT ![Cur.g] = [st |-> "called", line |-> l, pre |-> ("ctx" \in DOMAIN Cur /\ Cur.ctx \in cdone)]]
+  /\ UNCHANGED <<vars, ctxc, cdone>>
 
 TRet ==
   /\ IsEv("ret") /\ Consume
   /\ pend[Cur.g].st = "done" /\ CallOf(Cur.g).ret = l
   /\ pend' = [pend EXCEPT ![Cur.g] = Idle]
-  /\ UNCHANGED <<vars, ctxc>>
+  /\ UNCHANGED <<vars, ctxc, cdone>>
 
 TCancel ==
   /\ IsEv("cancel") /\ Consume
   /\ ctxc' = ctxc \cup {Cur.ctx}
-  /\ IF Cur.ctx = 100 /\ ~cancelled THEN ParentCancel ELSE UNCHANGED vars
-  /\ UNCHANGED pend
+  \* (the cancellation of the Channel's own parent context (100) takes effect somewhere between this line and the
+  \*  matching "cancelled" line: a silent step, see TSilent)
+  /\ UNCHANGED <<vars, pend, cdone>>
 
-TSrc == IsEv("src") /\ Consume /\ SrcSend(Cur.v) /\ UNCHANGED <<pend, ctxc>>
-TSrcClose == IsEv("srcclose") /\ Consume /\ SrcClose /\ UNCHANGED <<pend, ctxc>>
+TCancelled ==
+  /\ IsEv("cancelled") /\ Consume /\ cdone' = cdone \cup {Cur.ctx}
+  /\ Cur.ctx = 100 => cancelled          \* by now the parent's cancellation has taken effect
+  /\ UNCHANGED <<vars, pend, ctxc>>
+
+TSrc == IsEv("src") /\ Consume /\ SrcSend(Cur.v) /\ UNCHANGED <<pend, ctxc, cdone>>
+TSrcClose == IsEv("srcclose") /\ Consume /\ SrcClose /\ UNCHANGED <<pend, ctxc, cdone>>
 
 CanProgress(g) ==
   LET p == pend[g] e == TLog[p.line] IN
@@ -70,16 +76,16 @@ TQuiescent ==
   /\ Cur.exact => /\ \A g \in GS : pend[g].st # "idle" => ~CanProgress(g)
                   /\ ~(once /\ ~done) /\ ~(cancelled /\ ~once)
   /\ (Cur.exact \/ Cur.pending = <<>>) => (Cur.buflen = Len(buf) /\ Cur.rb = rb)
-  /\ UNCHANGED <<vars, pend, ctxc>>
+  /\ UNCHANGED <<vars, pend, ctxc, cdone>>
 
 TFinal ==
   /\ IsEv("final") /\ Consume
   /\ Cur.rest = src                     \* what is left in the source channel is exactly what was never taken
   /\ Chk("close") => (Cur.leaked = 0 /\ Cur.returned)
-  /\ UNCHANGED <<vars, pend, ctxc>>
+  /\ UNCHANGED <<vars, pend, ctxc, cdone>>
 
 \* (cancelling the Channel's own parent context (id 100) is a state change that disables actions: steps may precede it)
-SilentOK == l <= NL /\ Cur.ev \notin {"call", "reset", "src", "srcclose"} /\ ~(Cur.ev = "cancel" /\ Cur.ctx # 100)
+SilentOK == l <= NL /\ Cur.ev \notin {"call", "reset", "src", "srcclose"} /\ ~(Cur.ev \in {"cancel", "cancelled"} /\ Cur.ctx # 100)
 
 LinGet(g) ==
   /\ pend[g].st = "called" /\ CallOf(g).op = "Get"
@@ -116,9 +122,10 @@ TSilent ==
   /\ \/ \E g \in GS : pend[g].st \in {"called", "held"} /\
           (LinGet(g) \/ LinCommit(g) \/ LinRollback(g) \/ LinBuffer(g) \/ LinCloseBegin(g) \/ LinCloseOk(g) \/ LinCloseAgain(g))
      \/ (UNCHANGED pend /\ (CloseBegin("sys") \/ CloseFinish))
-  /\ UNCHANGED ctxc
+     \/ (UNCHANGED pend /\ 100 \in ctxc /\ ~cancelled /\ ParentCancel)
+  /\ UNCHANGED <<ctxc, cdone>>
 
-TVNext == TSilent \/ TReset \/ TCall \/ TRet \/ TCancel \/ TSrc \/ TSrcClose \/ TQuiescent \/ TFinal
+TVNext == TSilent \/ TReset \/ TCall \/ TRet \/ TCancel \/ TCancelled \/ TSrc \/ TSrcClose \/ TQuiescent \/ TFinal
 TVSpec == TVInit /\ [][TVNext]_tvars
 
 Mark ==
